@@ -457,6 +457,10 @@ def proxy (s : Sess) (o : ObjId) : Sess × Res :=
         | some o' => (s, { yield := some o' })
         | none => (s, { err := some .needLoad })        -- falls back to `entity[pkval]`
 
+/-- `entity._set_rbits(objects, used_attrs)` at the END of `_fetch_objects` (after all rows were processed) -/
+def markRead (s : Sess) (os : List ObjId) (attrs : List Nat) : Sess × Res :=
+  ({ s with obj := fun o => if os.contains o then setRbits (s.obj o) attrs else s.obj o }, {})
+
 /-! ## 5. operations and `step` -/
 
 inductive Op
@@ -471,6 +475,7 @@ inductive Op
   | saveDeleted (o : ObjId)
   | find (cls : Nat) (pk : Option KeyVal) (kw : List (Nat × Int))
   | proxy (o : ObjId)
+  | markRead (os : List ObjId) (attrs : List Nat)
 deriving Repr
 
 def stepR (sch : Schema) (s : Sess) : Op → Sess × Res
@@ -485,6 +490,7 @@ def stepR (sch : Schema) (s : Sess) : Op → Sess × Res
   | .saveDeleted o => saveDeleted s o
   | .find c pk kw => find sch s c pk kw
   | .proxy o => proxy s o
+  | .markRead os attrs => markRead s os attrs
 
 def step (sch : Schema) (s : Sess) (op : Op) : Sess := (stepR sch s op).1
 
